@@ -502,7 +502,7 @@ func init() {
 // (quick: one per shape class; thorough: all kinds).
 func synPartners(tier string) []int {
 	if tier == "quick" {
-		return []int{0, 1, 4, 6, 9, 15, 17, 19, 21}
+		return []int{0, 1, 4, 6, 9, 15, 17, 19, 21, 22}
 	}
 	var all []int
 	for k := 0; k < enum.NumSynDocKinds; k++ {
